@@ -377,8 +377,8 @@ theorem inv_init : Inv init where
   orphan := by intro p h; simp [init] at h
 
 theorem inv_initZero (z : Elem) : Inv (initZero z) where
-  noWrap := by decide
-  base_ge := by decide
+  noWrap := by show initNextZero < W; decide
+  base_ge := by show minSize ≤ initNextZero; decide
   base_le := Nat.le_refl _
   resv_range := by intro t i h; simp [initZero, resv] at h
   resv_uniq := by intro t t' i h; simp [initZero, resv] at h
@@ -406,7 +406,10 @@ theorem inv_initZero (z : Elem) : Inv (initZero z) where
   mem_fresh := by
     intro p b hp
     simp only [initZero] at hp ⊢
-    have : ¬ (p = 0 ∧ b = 0) := by omega
+    have hp' : 1 ≤ p := hp
+    have : ¬ (p = 0 ∧ b = 0) := by
+      rintro ⟨rfl, _⟩
+      exact absurd hp' (by decide)
     simp [this]
   slots := by intro t v r h; simp [initZero] at h
   slots0 := by
@@ -432,7 +435,9 @@ theorem inv_initZero (z : Elem) : Inv (initZero z) where
     · cases h
   orphan := by
     intro p h
-    have hp : p = 0 := by simp only [initZero] at h; omega
+    have hp : p = 0 := by
+      have h' : p < 1 := h
+      exact Nat.lt_one_iff.1 h'
     subst hp
     left; exact ⟨numSizes - 1, by simp [initZero]⟩
 
